@@ -25,7 +25,8 @@ def real_task_groups(ctx):
             script = [("send", b"GET /a HTTP/1.1\r\nHost: x\r\n\r\n"), ("sleep", 1.0)]
             for backend, run in (("asyncio", W.run_asyncio), ("trio", W.run_trio)):
                 cfg = R.make_config(())
-                cfg._log = R.RecLog([])
+                logged = []
+                cfg._log = R.RecLog(logged)
                 cfg.keep_alive_timeout = 5.0
                 res = run(c16.scripted([steps]), cfg, script, tail=30.0)
                 n += 1
@@ -35,6 +36,8 @@ def real_task_groups(ctx):
                 if obs["handler_error"] is not None or obs["leftovers"]:
                     fails.append({"case": case, "what": f"the application's failure left the connection handler with {obs['handler_error']!r}",
                                   "signature": "c05:failure-escapes-the-connection"})
+                elif ["log.exception"] not in logged:
+                    fails.append({"case": case, "what": "the application's failure was not logged", "signature": "c05:logged"})
                 elif when == "before-start" and not obs["wire"].startswith(b"HTTP/1.1 500 "):
                     fails.append({"case": case, "what": "no 500 for an application that failed before responding", "signature": "c05:no-500"})
                 elif when != "before-start" and (obs["wire"].endswith(b"0\r\n\r\n") or obs["closed_at"] is None):
